@@ -20,6 +20,8 @@ RULE = ('Hypothesis draws a TT (order 1..5, vector or operator, real/complex, mo
         'complex, size-1 mode or a partial sweep.')
 RULE += (' ' + 'Added classes: nearly orthonormal cores (1e-7 ... 3e-6), an overall factor 1e-30 ... 1e8, and the same object swept again after the caller changed a swept core array in place.')
 
+RULE += (' Added class: the progress bar of the left sweep switched on (progress=True, title string).')
+
 ASSUMPTIONS = [
     'no truncation: threshold 0 and max_rank inf (defaults, or passed explicitly)',
     'start/end indices inside the documented ranges (0 <= start <= end <= d-2 for left sweeps, d-1 >= start >= end >= 1 for right sweeps)',
@@ -42,7 +44,9 @@ def ortho_case(draw):
             # overall magnitude (carried by the first core, where `c * t` puts it): the sweeps are homogeneous
             'scale_exp': draw(st.sampled_from([0, 0, 0, -16, -20, -30, 8])),
             # the same object once more: a swept core array is changed in place by the caller, then the same sweep is requested again
-            'again': draw(st.sampled_from([None, None, 'scale', 'shift']))}
+            'again': draw(st.sampled_from([None, None, 'scale', 'shift'])),
+            # the progress bar of the left sweep switched on (its output goes to a scratch stream)
+            'progress': draw(st.sampled_from([False, False, False, True]))}
     if sweep == 'left' and d >= 2:
         if draw(st.booleans()):
             s = draw(st.integers(0, d - 2))
@@ -54,6 +58,11 @@ def ortho_case(draw):
             e = draw(st.integers(1, s))
             case['start'], case['end'] = s, e
     return case
+
+
+def _quiet():
+    import contextlib, io
+    return contextlib.redirect_stdout(io.StringIO())
 
 
 def make(spec):
@@ -123,15 +132,21 @@ def body_ortho(case):
     if case.get('scale_exp', 0) and not spec.get('int_dtype') and spec['klass'] != 'single_precision':
         lab.add('rescaled')
 
+    kwl = dict(kw, progress=True, string='sweep') if case.get('progress') else kw
+    if case.get('progress') and sweep == 'left':
+        lab.add('progress_bar_on')
+
     def run_sweep():
         if sweep == 'left':
             s, e = case.get('start', 0), case.get('end', d - 2)
             if 'start' in case:
-                ret = t.ortho_left(start_index=s, end_index=e, **kw)
+                with _quiet():
+                    ret = t.ortho_left(start_index=s, end_index=e, **kwl)
                 if (s, e) != (0, d - 2):
                     lab.add('partial')
             else:
-                ret = t.ortho_left(**kw)
+                with _quiet():
+                    ret = t.ortho_left(**kwl)
             processed = list(range(s, e + 1))
             touched = set(range(s, e + 2)) if processed else set()
             side = 'left'
